@@ -332,7 +332,7 @@ def _k7_k8(ctx, R, cc):
           "symmetric DRC pairs over different paths); K2 the set of cross-side comparisons covers what the comparer is documented to "
           "examine (port direction / array-ness / width, cable width, per-wire pin count and type, outer pin -> instance and inner pin, "
           "inner pin index and port, instance reference and library, properties, element counts); K3 no return that skips required "
-          "comparisons; K4 an escape clause of an assertion constrains both sides; K6 the counterpart of an element is looked up inside the counterpart of its container (same level on both sides). Decides that differences cannot slip through a "
+          "comparisons; K4 an escape clause of an assertion constrains both sides; K6 the counterpart of an element is looked up inside the counterpart of its container (same level on both sides); K7 no assertion is vacuous (a tuple or non-empty literal as condition); K8 no path of a two-sided method finishes knowing an optional attribute is missing on one side and nothing about its counterpart. Decides that differences cannot slip through a "
           "one-sided or missing comparison; acceptance of faithful copies depends on C07/C03/C04 and is not decided.")
 def check_c20(ctx, R):
     P = ctx.P
